@@ -383,6 +383,11 @@ class Hist:
             self.down.discard(b)
         self.sample({"kind": "backend", "b": b, "mode": mode})
 
+    def period_end(self):
+        """the statistics Collector ends a period now (a real Collector is started: its first tick is immediate)"""
+        self.steps.append({"op": "collector"})
+        self.sample({"kind": "period_end"})
+
     def shutdown(self):
         self.steps.append({"op": "control", "sig": "int"})
         self.admin_only = True
@@ -410,7 +415,7 @@ def random_history(rng, idx, nact):
             acts += [("connect", 5 if len(alive) < 2 else 2), ("badlogin", 1)]
         if alive:
             acts += [("request", 10), ("leave", 2), ("panic", 1 if rng.random() < 0.2 else 0)]
-        acts += [("admin", 1), ("backend", 1)]
+        acts += [("admin", 1), ("backend", 1), ("period", 1)]
         if alive:
             acts.append(("cancel", 2))
         kinds, wts = zip(*[(a, x) for a, x in acts if x > 0])
@@ -493,6 +498,8 @@ def random_history(rng, idx, nact):
         elif act == "leave":
             c = rng.choice(alive)
             h.leave(c, rng.choice(["close", "term"]))
+        elif act == "period":
+            h.period_end()
         elif act == "cancel":
             c = rng.choice(alive)
             x = h.cl[c]
@@ -637,6 +644,44 @@ def directed_histories(rng):
     h.request("c1", "select", shard=("id", 1), spawn_sample=True)     # shard 1 is exhausted: second failure, disconnected
     h.request("c2", "commit")
     out.append(h)
+    # the end of a statistics period (Collector): errors, bytes, transactions counted before it; samples on both sides
+    for role in ("replica", "primary"):
+        w = make_world("replica", rng, limit=None, hc_always=False, size=1)
+        h = Hist(w, "period-end-%s" % role)
+        h.period_end()                      # nothing counted yet, no server connection at all
+        h.connect("c1", 1)
+        h.set_role("c1", role)
+        h.connect("c2", 1)
+        h.set_role("c2", role)
+        h.request("c1", "buffers")
+        h.request("c1", "begin")
+        h.request("c2", "select", spawn_sample=True)     # pool exhausted: checkout error (replica: ban + client error)
+        h.period_end()                      # total_errors / bytes / counts must survive; averages = this period / 15
+        h.period_end()                      # an empty period: averages back to 0, totals still there
+        h.request("c1", "commit")
+        h.request("c2", "select")
+        h.backend("b1" if role == "replica" else "b0", "refuse")
+        h.request("c2", "select")           # the dead connection: another error class
+        h.period_end()
+        h.leave("c1", "term")
+        h.period_end()
+        out.append(h)
+    for kind in ("single", "two", "sharded", "session"):
+        w = make_world(kind, rng, limit=None, hc_always=False, size=1)
+        h = Hist(w, "period-end-%s" % kind)
+        h.connect("c1", 1)
+        h.connect("c2", w["pools"][-1]["id"])
+        h.request("c1", "copyout")
+        h.request("c2", "ext2")
+        h.period_end()
+        h.request("c1", "begin")
+        h.request("c2", "select", spawn_sample=(kind == "single"))
+        h.period_end()
+        h.request("c1", "rollback")
+        h.leave("c1", "close")
+        h.leave("c2", "term")
+        h.period_end()                      # every client gone: the totals stay
+        out.append(h)
     # CancelRequest connections: pseudo-clients that are never registered and must change nothing — whoever they name
     for kind in ("single", "session"):
         w = make_world(kind, rng, limit=None, hc_always=False, size=2)
@@ -1077,6 +1122,12 @@ class Derive:
         self.srv[s]["holder"] = c
         self.started_free.add(entry["tag"])
 
+    def k_period_end(self, entry, ops, drops):
+        ops.append("PeriodEnd")
+
+    def k_sleep(self, entry, ops, drops):
+        pass
+
     def k_leave(self, entry, ops, drops):
         c = entry["c"]
         if self.phase.get(c) != "handle":
@@ -1220,7 +1271,8 @@ def canon_model(h, obs):
         "servers": sorted((aname[r[1]], SSTATE[r[2]], app[r[3] - 1] if r[3] else None, r[4], r[5], r[6], r[7]) for r in sv),
         "pools": {pname[r[0]]: tuple(r[1:]) for r in pools},
         "lists": tuple(lists),
-        "stats": {aname[r[0]]: tuple(r[1:]) for r in stats},
+        "stats": {aname[r[0]]: tuple(r[1:6]) for r in stats},
+        "avgs": {aname[r[0]]: tuple(r[6:11]) for r in stats},     # avg_xact_count, avg_query_count, avg_sent, avg_recv, avg_errors
     }
 
 
@@ -1247,6 +1299,7 @@ def canon_impl(h, snap, adm):
     lists = {r["list"]: I(r["items"]) for r in adm["LISTS"]}
     out["adm"]["lists"] = (lists.get("free_clients"), lists.get("used_clients"), lists.get("free_servers"), lists.get("used_servers"))
     out["adm"]["stats"] = {r["instance"]: (I(r["total_xact_count"]), I(r["total_query_count"]), I(r["total_sent"]), I(r["total_received"]), I(r["total_errors"])) for r in adm["STATS"]}
+    out["adm"]["avgs"] = {r["instance"]: (I(r["avg_xact_count"]), I(r["avg_query_count"]), I(r["avg_sent"]), I(r["avg_recv"]), I(r["avg_errors"])) for r in adm["STATS"]}
     out["adm"]["stats_all"] = {r["instance"]: {k: I(v) for k, v in r.items() if k.startswith("total_")} for r in adm["STATS"]}
     out["adm"]["client_rows"] = {r["client_id"]: (I(r["transaction_count"]), I(r["query_count"]), I(r["error_count"])) for r in adm["CLIENTS"]}
     out["adm"]["server_rows"] = {r["server_id"]: (I(r["transaction_count"]), I(r["query_count"]), I(r["bytes_sent"]), I(r["bytes_received"])) for r in adm["SERVERS"]}
@@ -1277,6 +1330,10 @@ def diff_sample(h, m, im, fault):
         d.append("SHOW LISTS (free_clients, used_clients, free_servers, used_servers): model %s impl %s" % (m["lists"], im["adm"]["lists"]))
     if nobytes_stats(m["stats"]) != nobytes_stats(im["adm"]["stats"]):
         d.append("SHOW STATS (xact, query, sent, received, errors): model %s impl %s" % (m["stats"], im["adm"]["stats"]))
+    def nobytes_avg(st):
+        return {k: (v[0], v[1], None, None, v[4]) if fault else v for k, v in st.items()}
+    if nobytes_avg(m["avgs"]) != nobytes_avg(im["adm"]["avgs"]):
+        d.append("SHOW STATS averages of the last period (avg_xact_count, avg_query_count, avg_sent, avg_recv, avg_errors): model %s impl %s" % (m["avgs"], im["adm"]["avgs"]))
     if fault:
         for k, v in m["stats"].items():
             iv = im["adm"]["stats"].get(k)
@@ -1440,9 +1497,28 @@ def parse_model(v):
 
 # =========================================================================================== driver
 
+def real_period_history(rng):
+    """thorough tier: the Collector that was started with the pooler ends its first real period 15 s after the start"""
+    w = make_world("replica", rng, limit=None, hc_always=False, size=1)
+    h = Hist(w, "period-end-real-15s")
+    h.connect("c1", 1)
+    h.set_role("c1", "replica")
+    h.connect("c2", 1)
+    h.set_role("c2", "replica")
+    h.request("c1", "buffers")
+    h.request("c1", "begin")
+    h.request("c2", "select")               # exhausted: errors on the replica
+    h.steps.append({"op": "sleep", "ms": 15300})
+    h.sample({"kind": "period_end"})
+    h.request("c1", "commit")
+    return h
+
+
 def build_histories(run, quick):
     rng = run.rng
     hs = directed_histories(rng) + special_histories(rng)
+    if not quick:
+        hs.append(real_period_history(rng))
     nrand = 150 if quick else 2500
     for i in range(nrand):
         hs.append(random_history(rng, i, rng.randint(8, 14) if quick else rng.randint(8, 22)))
